@@ -58,6 +58,7 @@ Val(n) == [kind |-> "val", v |-> n]
 Out(o, k, ra) == [out |-> o, k |-> k, ra |-> ra]
 RetsOne == {Val(1)}
 RasNone == {None}
+ZeroDur == {0}
 AdvsExact == {"exact"}
 DecsAll == {"sleep", "defer", "abort"}
 BFaultsNone == {"none"}
